@@ -7,6 +7,7 @@ PID=$1; SD=$2; WT=$3; TIER=${4:-quick}
 export GOFLAGS=-mod=mod GOPROXY=off
 cd "$WT" || exit 2
 git checkout -q -- . && git clean -fdq
+[ -n "${TRYSEED_PRE:-}" ] && eval "$TRYSEED_PRE"
 DEMO_PATH=$(python3 -c "import json;print(json.load(open('$SD/meta.json'))['demo_path'])")
 DEMO_CMD=$(python3 -c "import json;print(json.load(open('$SD/meta.json'))['demo_cmd'])")
 TESTS_CMD=$(python3 -c "import json;print(json.load(open('$SD/meta.json'))['tests_cmd'])")
@@ -18,6 +19,7 @@ echo "--- demo with patch"; (eval "$DEMO_CMD") >/tmp/tryseed.$$.b 2>&1; B=$?; ta
 rm -f "$DEMO_PATH"
 echo "--- existing tests with patch"; (eval "$TESTS_CMD") >/tmp/tryseed.$$.c 2>&1; C=$?; tail -3 /tmp/tryseed.$$.c
 echo "SEED-VALID: demo_without=$A (want 0) demo_with=$B (want !=0) tests_with=$C (want 0)"
+[ -n "${TRYSEED_POST:-}" ] && eval "$TRYSEED_POST"
 echo "--- bin/check $PID $TIER against patched tree"
 (cd /verif && VERIF_REPO="$WT" bin/check "$PID" "$TIER") > /tmp/tryseed.$$.d 2>&1; D=$?
 grep -E "VIOLATION|KNOWN-FINDING|^OK" /tmp/tryseed.$$.d | head -5
